@@ -48,7 +48,7 @@ func (m *c14Model) accept(c uint64) {
 }
 
 func genC14(r *vh.Runner) {
-	n := r.Pick(48, 1500)
+	n := r.Pick(48, 8000)
 	for i := 0; i < n; i++ {
 		r.Case(fmt.Sprintf("channel-filter/%d", i), map[string]any{"rep": i}, func(c *vh.Case) {
 			c.Bubble(func() { filterRun(r, c, i) })
